@@ -55,7 +55,7 @@ func paramsText(ps rux.Params) string {
 }
 
 func build(p program, opts model.Options) *rux.Router {
-	r := rux.New(opts.Rux()...)
+	r := opts.NewRouter()
 	for i := 0; i < p.nGlobal; i++ {
 		r.Use(mw(fmt.Sprintf("g%d", i)))
 	}
@@ -68,6 +68,7 @@ func build(p program, opts model.Options) *rux.Router {
 		for k := 0; k < p.routeMws[i]; k++ {
 			rt.Use(mw(fmt.Sprintf("%sm%d", name, k)))
 		}
+		rt.Opts = map[string]any{"owner": name} // exported route options set at registration
 	}
 	if p.customNA {
 		r.NotAllowed(func(c *rux.Context) {
@@ -86,6 +87,7 @@ type obs struct {
 	Path    string
 	Methods string
 	NMw     int
+	Opts    string
 	Params  string
 	Allowed string
 	Code    int
@@ -98,6 +100,7 @@ func observe(r *rux.Router, method, path string) obs {
 	rt, ps, alm := r.Match(method, path)
 	if rt != nil {
 		o.Route, o.Path, o.Methods, o.NMw = rt.Name(), rt.Path(), strings.Join(rt.Methods(), ","), len(rt.Handlers())
+		o.Opts = fmt.Sprint(rt.Opts)
 	}
 	o.Params = paramsText(ps)
 	al := append([]string{}, alm...)
@@ -176,6 +179,8 @@ func prop(t *rapid.T) {
 	o.Caching = true
 	o.CacheCap = rapid.IntRange(0, ev.Pick(4, 8)).Draw(t, "cap")
 	p.customNA = rapid.Bool().Draw(t, "customNA")
+	o.Via, o.Order = model.GenVia(t), model.GenOrder(t)
+	o.EncodedPath = rapid.IntRange(0, 3).Draw(t, "useEncodedPath") == 0
 	tc := model.TableCfg{MaxRoutes: 6, Gen: model.GenCfg{MaxSegs: 3}, Fallback: o.Fallback}
 	p.tb.Routes = model.GenRoutes(t, tc, o.Strict)
 	if len(p.tb.Routes) == 0 {
